@@ -205,6 +205,8 @@ def run_scenario(spec, tier, open_classes, focus=None, validate_max=12, timeout_
             r_out, r_failed, r_obs = core.run_concrete(rsc.run, model)
             r_failed = [lb for lb in r_failed if not any(lb == v["label"] or v["family"] in lb for v in st.violations)]
             r_failed = [] if st.violated_families else r_failed
+            if any(z3.is_true(m.eval(x, model_completion=True)) for x in ctx.excluded):
+                r_failed = []       # this input lies in the class of an open known finding: muted on purpose
         except Exception as e:  # noqa: BLE001
             validations["mismatch"].append({"scenario": sc.ident(), "model": model, "why": f"real run raised {e!r}",
                                             "tb": traceback.format_exc()[-800:]})
@@ -373,8 +375,8 @@ def run_property(pid, scenarios, tier, seed, *, assumptions, outside, bounds, ex
                 lines.append(f"KNOWN-FINDING: property={pid} {f['id']} {f['what']}")
     seen = set()
     for i, v in enumerate(violations):
-        key = (v["spec"]["cls"], v["family"])
-        if key in seen:
+        key = (v["spec"]["cls"], v["family"], v["label"].split(":")[0])
+        if key in seen or len(seen) >= 8:
             continue
         seen.add(key)
         path = os.path.join(HERE, "replays", f"{pid}_{v['spec']['cls']}_{len(seen)}.json")
